@@ -1,8 +1,12 @@
 package worlds
 
 import (
+	"bytes"
 	"encoding/json"
 	"fmt"
+	"os"
+
+	"gitlab.com/gomidi/midi/v2/smf"
 
 	"verif/sim/core"
 	"verif/sim/ref"
@@ -315,7 +319,20 @@ func (s *Crash) Run(env *core.Env, st *core.Stats) (vs []core.Violation) {
 		// the same bytes from a source without a Seek method (readBytes uses bytes.Reader, which has one)
 		o2 := readUnseekable(s.Raw, true)
 		st.Eval(1)
-		return checkAny(s.Raw, o2, "corrupted input from a plain (non-seekable) reader ("+s.How+")")
+		if v := checkAny(s.Raw, o2, "corrupted input from a plain (non-seekable) reader ("+s.How+")"); len(v) > 0 {
+			return v
+		}
+		// ... and with the Log read option set
+		var o3 readOutcome
+		o3.call = guarded(libBudget, true, func() {
+			o3.s, o3.err = smf.ReadFrom(bytes.NewReader(s.Raw), smf.Log(discardLogger{}))
+		})
+		st.Eval(1)
+		if v := checkAny(s.Raw, o3, "corrupted input read with the Log option ("+s.How+")"); len(v) > 0 {
+			return v
+		}
+		// ... and through the track-iteration entry points (reader based and file-name based)
+		return tracksReaderNoPanic(env, s.Raw, "corrupted input ("+s.How+")")
 	}
 	sf := s.Src.produce()
 	if sf.bad != "" {
@@ -326,6 +343,11 @@ func (s *Crash) Run(env *core.Env, st *core.Stats) (vs []core.Violation) {
 		st.Sample(map[string]any{"mode": "truncate", "file_hex": core.Trunc(core.HexStr(sf.data), 300), "size": len(sf.data), "crash_points": "every byte offset"})
 	}
 	want := sf.expected
+	if s.OnlyCut < 0 {
+		if v := tracksReaderNoPanic(env, sf.data, "complete valid file"); len(v) > 0 {
+			return v
+		}
+	}
 	cut := func(k int) bool {
 		data := sf.data[:k]
 		o := readBytes(data, true)
@@ -440,4 +462,34 @@ func regionStarts(regions []string, n int, names ...string) []int {
 		}
 	}
 	return out
+}
+
+// tracksReaderNoPanic drives the TracksReader entry points (ReadTracksFrom / ReadTracks +
+// Do) over arbitrary bytes: whatever they contain, no panic.
+func tracksReaderNoPanic(env *core.Env, data []byte, what string) []core.Violation {
+	n := 0
+	g := guarded(libBudget, false, func() {
+		tr := smf.ReadTracksFrom(bytes.NewReader(data))
+		tr.Do(func(smf.TrackEvent) { n++ })
+		_ = tr.Error()
+	})
+	if g.panicked || g.timeout {
+		return []core.Violation{core.V("panic", "tracksreader:"+panicKey(g.panicMsg), "%s: ReadTracksFrom(...).Do panicked/hung: %s; input(%d)=%s", what, g.panicMsg, len(data), core.Trunc(core.HexStr(data), 300))}
+	}
+	if env != nil && env.T != nil && len(data)%4 == 0 {
+		path := tempDir(env) + "/tracks.mid"
+		if err := os.WriteFile(path, data, 0o644); err != nil {
+			panic(err)
+		}
+		g = guarded(libBudget, false, func() {
+			tr := smf.ReadTracks(path)
+			tr.Do(func(smf.TrackEvent) { n++ })
+			_ = tr.Error()
+		})
+		os.Remove(path)
+		if g.panicked || g.timeout {
+			return []core.Violation{core.V("panic", "tracksreader-file:"+panicKey(g.panicMsg), "%s: ReadTracks(file).Do panicked/hung: %s; input(%d)=%s", what, g.panicMsg, len(data), core.Trunc(core.HexStr(data), 300))}
+		}
+	}
+	return nil
 }
